@@ -46,6 +46,7 @@ class Res:
         self.vacations = list(vacations)  # resource-level "vacation a - b"
         self.bookings = list(bookings)    # [(startDt, seconds)]
         self.limits = list(limits)        # [(kind 'd'|'w', seconds)]
+        self.rate = None
         self.kids = []
 
 
@@ -191,6 +192,8 @@ class Proj:
             i2 = ind + "  "
             if r.eff != 1:
                 L.append("%sefficiency %s" % (i2, fmt_eff(r.eff)))
+            if r.rate is not None:
+                L.append("%srate %s" % (i2, r.rate))
             if r.tz:
                 L.append('%stimezone "%s"' % (i2, r.tz))
             if r.shift:
